@@ -197,7 +197,8 @@ void ok_triples(vf::Ctx& c)
 void modular(vf::Ctx& c)
 {
     if (c.shard != 0) { return; }
-    for (unsigned m = 1; m <= 12; ++m) {
+    // [time.cal.month.nonmembers] defines month + months for EVERY stored month value (0..254 can be constructed), not only for ok() months
+    for (unsigned m = 0; m <= 254; ++m) { // month(255) violates the constructor's documented precondition (m < 255)
         for (int dm = -40; dm <= 40; ++dm) {
             Case k{"month+months", static_cast<long>(m), dm, 0, 0};
             vf::Flight<Case> fl("month_arith", k);
@@ -249,6 +250,11 @@ void modular(vf::Ctx& c)
                 vf::label("month arithmetic: |delta| > 2^30", dm > (1L << 30) || dm < -(1L << 30));
             }
         }
+        if (m < 1 || m > 12) {
+            vf::label("month arithmetic: month value outside 1..12", true);
+            continue; // month - month and ++/-- below are specified for ok() months only
+        }
+        vf::label("month arithmetic: month value outside 1..12", false);
         for (unsigned m2 = 1; m2 <= 12; ++m2) {
             Case k{"month-month", static_cast<long>(m), static_cast<long>(m2), 0, 0};
             vf::Flight<Case> fl("month_arith", k);
